@@ -19,7 +19,7 @@ search   (i)  k simulations of all 10 integrators created/copied/saved/loaded/fr
               final state with server+requests == without.
          thorough: the same server scenario as a C program under ThreadSanitizer.
 """
-import ctypes, hashlib, json, os, socket, struct, subprocess, sys, tempfile, threading, time
+import ctypes, hashlib, json, os, re, socket, struct, subprocess, sys, tempfile, threading, time
 sys.path.insert(0, os.path.dirname(os.path.abspath(__file__)))
 from common import *
 
@@ -691,6 +691,14 @@ def par_specs(c, k, same=None):
 def par_task(rebound, fmt, sp, tmpdir, ident):
     """create, advance, copy, save, load, free, advance both: canonical final states of the loaded one and of the copy"""
     sim = make_sim(rebound, sp)
+    # the per-simulation random generator (tools.c:54-95, rand_r on r->rand_seed) feeds a test particle
+    clib = rebound.clibrebound
+    clib.reb_random_uniform.restype = ctypes.c_double
+    clib.reb_random_normal.restype = ctypes.c_double
+    u = [clib.reb_random_uniform(ctypes.byref(sim), ctypes.c_double(0.0), ctypes.c_double(1.0)) for _ in range(6)]
+    g = clib.reb_random_normal(ctypes.byref(sim), ctypes.c_double(1.0))
+    if sp["integ"] != "janus":
+        sim.add(m=0.0, x=5.0 + u[0], y=u[1] - 0.5, z=0.05 * g, vx=0.1 * (u[2] - 0.5), vy=0.35 + 0.05 * u[3], vz=0.01 * u[4])
     sim.integrate(sp["tmax"][0])
     cp = sim.copy()
     fn = os.path.join(tmpdir, "par_%s.bin" % ident)
@@ -766,11 +774,6 @@ def parallel_part(c, d, rebound, fmt, boost):
 
 
 # ---------------------------------------------------------------------------- thorough: ThreadSanitizer
-KNOWN_RACES = [
-    ("need_copy", ["need_copy"]),
-]
-
-
 def tsan_part(c, d):
     """C harness (integration + server + client thread) against a clang -fsanitize=thread build of the library"""
     src = os.path.join(d, "src")
@@ -809,19 +812,39 @@ def tsan_part(c, d):
             c.cov["tsan"] = "not run: harness rc=%d %s" % (q.returncode, q.stderr[-300:])
             return
         reports = q.stderr.split("WARNING: ThreadSanitizer:")[1:]
+        if "done steps=" not in q.stdout:
+            raise Infra("tsan harness did not finish: %s" % q.stderr[-300:])
         for r in reports:
-            frames = [l.strip() for l in r.splitlines() if l.strip().startswith("#")]
-            funcs = [f.split()[1] for f in frames if len(f.split()) > 1]
-            locs = " ".join(frames)
-            if "need_copy" in r or ("reb_server_start" in funcs and "reb_simulation_integrate_raw" in funcs[:3] and "rebound.c:845" in locs):
-                cat = "need_copy plain int (rebound.c:845 vs server.c:323/326)"
-            elif ("reb_check_exit" in funcs or "reb_simulation_integrate_raw" in funcs[:2] or "reb_simulation_synchronize" in funcs) and \
-                    ("reb_simulation_save_to_stream" in funcs or "reb_output_stream_write" in funcs or "reb_server_start" in funcs):
-                cat = "F18: unlocked write of r (check_exit/prologue/epilogue) vs serialisation"
-            elif "mutex_locked_by_integrate" in r:
-                cat = "mutex_locked_by_integrate flag"
+            # the two conflicting accesses: frames after "Write/Read of size … by …" and after "Previous …"
+            stacks, cur = [], None
+            for l in r.splitlines():
+                ls = l.strip()
+                if re.match(r"(Previous )?(atomic )?(write|read) of size", ls, flags=re.I):
+                    cur = []
+                    stacks.append(cur)
+                elif ls.startswith("#") and cur is not None:
+                    f = ls.split()
+                    cur.append((f[1], f[2] if len(f) > 2 else ""))
+                elif not ls:
+                    cur = None
+            stacks = (stacks + [[], []])[:2]
+            fn = [[f for f, _ in st] for st in stacks]
+            allf = fn[0] + fn[1]
+            in_step = ["reb_simulation_step" in f for f in fn]
+            in_ser = ["reb_simulation_save_to_stream" in f or "reb_server_start" in f for f in fn]
+            in_int = ["reb_simulation_integrate_raw" in f for f in fn]
+            if not r.lstrip().startswith("data race"):
+                cat = "other: " + r.strip().splitlines()[0][:60]
+                unexpected.append(r[:1500])
+            elif "reb_simulation_start_server" in allf and "reb_server_start" in allf and not any(in_int):
+                cat = "server start-up handshake through the plain int `ready` (server.c:280 vs 716)"
+            elif any(in_step) and any(in_ser):
+                cat = "STEP vs SERIALISATION (mutual exclusion broken)"
+                unexpected.append(r[:1500])
+            elif any(in_int) and any(in_ser):
+                cat = "F18: unlocked write of r in reb_check_exit / prologue / epilogue vs serialisation"
             else:
-                cat = "other"
+                cat = "other data race"
                 unexpected.append(r[:1500])
             cats[cat] = cats.get(cat, 0) + 1
         c.count(("tsan", mode))
